@@ -845,9 +845,7 @@ func runC07(c *xs.Ctx, r *xs.Result) {
 		runRacePass(c, r) // the same writer / reader bodies free-running under the race detector (auxiliary: reports only)
 	}
 	longHistories(c, r)
-	for _, ldb := range []bool{true, false} {
-		bfs(c, r, ldb, b)
-	}
+	bfs(c, r, b)
 }
 
 func report(r *xs.Result, mgr string, path []Op, x *run) {
@@ -858,73 +856,102 @@ func report(r *xs.Result, mgr string, path []Op, x *run) {
 		map[string]interface{}{"manager": mgr, "ops": path})
 }
 
-// bfs explores all op sequences up to the depth bound with exact-state deduplication. The level-1 subtrees are split
-// over the shards; every shard keeps its own seen set (a state reached in two shards is expanded twice, never missed).
-func bfs(c *xs.Ctx, r *xs.Result, ldb bool, b bounds) {
-	name := "mem"
+// bfs explores all op sequences up to the depth bound with exact-state deduplication, level by level and for both
+// managers in step (level d of the leveldb-backed manager, level d of the in-memory one, then d+1): when the budget ends
+// inside level d, everything up to depth d-1 is complete for both. The level-1 subtrees are split over the shards; every
+// shard keeps its own seen set (a state reached in two shards is expanded twice, never missed).
+type item struct{ path []Op }
+
+type search struct {
+	name     string
+	ldb      bool
+	seen     map[string]bool
+	frontier []item
+}
+
+func newSearch(c *xs.Ctx, ldb bool) *search {
+	s := &search{name: "mem", ldb: ldb, seen: map[string]bool{}, frontier: []item{{nil}}}
 	if ldb {
-		name = "ldb"
+		s.name = "ldb"
 	}
-	type item struct{ path []Op }
-	seen := map[string]bool{}
 	x0, _ := execute(c, ldb, nil, true)
-	seen[x0.stateKey()] = true
+	s.seen[x0.stateKey()] = true
 	x0.close()
-	frontier := []item{{nil}}
-	const splitDepth = 2 // levels 0..splitDepth-1 are explored identically by every shard (counted by shard 0 only)
-	for depth := 0; depth < b.depth && len(frontier) > 0; depth++ {
-		counting := depth >= splitDepth || c.Shard == 0
-		var nxt []item
-		for _, it := range frontier {
-			if c.Expired() {
+	return s
+}
+
+const splitDepth = 2 // levels 0..splitDepth-1 are explored identically by every shard (counted by shard 0 only)
+
+// level expands the frontier by one operation; false = the deadline passed inside this level
+func (s *search) level(c *xs.Ctx, r *xs.Result, b bounds, depth int) bool {
+	name, ldb := s.name, s.ldb
+	counting := depth >= splitDepth || c.Shard == 0
+	var nxt []item
+	for _, it := range s.frontier {
+		if c.Expired() {
+			return false
+		}
+		xp, _ := execute(c, ldb, it.path, false)
+		succ := enabled(xp.ref, b)
+		xp.close()
+		for _, o := range succ {
+			path := append(append([]Op{}, it.path...), o)
+			x, reads := execute(c, ldb, path, false)
+			if counting {
+				r.Count("transitions", 1)
+				r.Count("reads_compared", int64(reads))
+				r.Add("op_kinds", o.K)
+			}
+			if x.errKey != "" {
+				report(r, name, path, x)
+				if counting {
+					r.Count("violating_transitions", 1)
+				}
+			} else {
+				k := x.stateKey()
+				if !s.seen[k] {
+					s.seen[k] = true
+					if counting {
+						r.Count("states_"+name, 1)
+					}
+					nxt = append(nxt, item{path})
+					if depth+1 == b.depth {
+						r.Sample(map[string]string{"manager": name, "ops": opsString(path)})
+					}
+				}
+			}
+			x.close()
+		}
+	}
+	s.frontier = nxt
+	if depth+1 == splitDepth {
+		var mine []item
+		for i, it := range s.frontier {
+			if c.Mine(i) {
+				mine = append(mine, it)
+			}
+		}
+		s.frontier = mine
+	}
+	if depth+1 == b.depth {
+		r.Count("shards_completed_depth_bound_"+name, 1)
+	}
+	return true
+}
+
+func bfs(c *xs.Ctx, r *xs.Result, b bounds) {
+	searches := []*search{newSearch(c, true), newSearch(c, false)}
+	for depth := 0; depth < b.depth; depth++ {
+		for _, s := range searches {
+			if len(s.frontier) == 0 {
+				continue
+			}
+			if !s.level(c, r, b, depth) {
 				r.Incomplete = true
-				r.Note("C07 %s: deadline at depth %d", name, depth)
+				r.Note("C07 %s: deadline inside level %d of %d (sequences of up to %d operations are complete for both managers in this shard)", s.name, depth+1, b.depth, depth)
+				r.Count(fmt.Sprintf("shards_stopped_inside_level_%d", depth+1), 1)
 				return
 			}
-			xp, _ := execute(c, ldb, it.path, false)
-			succ := enabled(xp.ref, b)
-			xp.close()
-			for _, o := range succ {
-				path := append(append([]Op{}, it.path...), o)
-				x, reads := execute(c, ldb, path, false)
-				if counting {
-					r.Count("transitions", 1)
-					r.Count("reads_compared", int64(reads))
-					r.Add("op_kinds", o.K)
-				}
-				if x.errKey != "" {
-					report(r, name, path, x)
-					if counting {
-						r.Count("violating_transitions", 1)
-					}
-				} else {
-					k := x.stateKey()
-					if !seen[k] {
-						seen[k] = true
-						if counting {
-							r.Count("states_"+name, 1)
-						}
-						nxt = append(nxt, item{path})
-						if depth+1 == b.depth {
-							r.Sample(map[string]string{"manager": name, "ops": opsString(path)})
-						}
-					}
-				}
-				x.close()
-			}
-		}
-		frontier = nxt
-		if depth+1 == splitDepth {
-			var mine []item
-			for i, it := range frontier {
-				if c.Mine(i) {
-					mine = append(mine, it)
-				}
-			}
-			frontier = mine
-		}
-		if depth+1 == b.depth {
-			r.Count("shards_completed_depth_bound_"+name, 1)
 		}
 	}
 }
